@@ -27,7 +27,7 @@ ASSUMPTIONS = [
 ]
 
 HERE = os.path.dirname(os.path.abspath(__file__))
-ARGLISTS = ["none", "text", "dict+children", "kwargs", "mixed"]
+ARGLISTS = ["none", "text", "dict+children", "kwargs", "mixed", "empty-dict", "attrs-object"]
 WS = ["default", True, False]
 BAD_WS = [None, 0, 1, "yes", ""]
 
@@ -67,6 +67,10 @@ def args_for(kind):
         return ({"id": "i"}, "t", ["u", 3]), {}
     if kind == "kwargs":
         return (Tag("b", "c"), None), {"class_": "c", "data_x": True}
+    if kind == "empty-dict":
+        return ({}, "x", {}), {}
+    if kind == "attrs-object":
+        return (Tag("i", id="q", class_="w").attrs, "x"), {}
     return ({"class": "a"}, HTML("<i>"), {"class": "b", "x_": 1}, [None, ("z",)]), {"class_": "k", "hidden": False}
 
 
@@ -111,6 +115,23 @@ def fn(case):
         g = getattr(tags, name)(*args_for(argkind)[0], **args_for(argkind)[1])
         if snap(g) != snap(f(*args_for(argkind)[0], **args_for(argkind)[1])):
             viols.append((f"shortcut:{name}", "top-level shortcut differs from tags.<name>", {}))
+    if argkind == "attrs-object":
+        # the element must own its attribute map: mutating it never reaches the donor tag
+        donor = Tag("i", id="q", class_="w")
+        mine = f(donor.attrs, "x")
+        mine.add_class("added")
+        mine.attrs["id"] = "changed"
+        if mine.attrs is donor.attrs or dict(donor.attrs) != {"id": "q", "class": "w"}:
+            viols.append((f"shared-attrs:{modname}.{name}", "element shares its attribute map with the tag whose "
+                          ".attrs was passed", {}))
+    if argkind == "kwargs":
+        # children are passed through untouched: the caller's child objects are not modified
+        child = Tag("section", "c")
+        s0 = snap(child)
+        f(child, class_="k")
+        if snap(child) != s0:
+            viols.append((f"child-mutated:{modname}.{name}", "the function modified a child object passed to it",
+                          {"before": s0, "after": snap(child)}))
     # each call creates its own element
     again = f(*args_for(argkind)[0], **args_for(argkind)[1])
     if again is got or again.children is got.children or again.attrs is got.attrs:
